@@ -155,7 +155,10 @@ func (m *MIME) cloneHierarchy(ps map[string]string) *MIME {
 
 func (m *MIME) lookup(mime string) *MIME {
 	verifAt("lookup.visit", m, nil, 0, 0, false)
-	for _, n := range append(m.aliases, m.mime) {
+	if m.mime == mime {
+		return m
+	}
+	for _, n := range m.aliases {
 		if n == mime {
 			return m
 		}
